@@ -10,8 +10,8 @@ EXPLANATION = ('Object, PSF and transfer-function arrays have independent symbol
                'unit impulse, circular translation by an impulse offset and multiplicativity of totals; lists of transfer functions against their '
                'product; callables of (fx,fy,fr,ft) are polynomial maps of the exact frequency grids. For the MTF the PSF samples are '
                'non-negative field-level symbols: MTF[n//2]=1, point symmetry, OTF = MTF*exp(i*PTF), and MTF<=1 as a solver-decided inequality.')
-BOUNDS = {'quick': 'conv / transfer functions: shapes in [1..4]^2 (subset incl. non-square, odd/even); MTF identities shapes up to 3x3, inequality up to 2x3',
-          'thorough': 'shapes [1..5]^2; MTF identities up to 4x4, inequality up to 3x3'}
+BOUNDS = {'quick': "conv / transfer functions: shapes in [1..4]^2 (subset incl. non-square, odd/even); MTF identities shapes up to 3x3, inequality up to 2x3; the library's jitter transfer function as a callable in lists (2x3); OTF/MTF/PTF on 4x2 and 2x4",
+          'thorough': 'shapes [1..5]^2; MTF identities up to 4x4, inequality up to 3x3; library callables on 3 shapes'}
 OUTSIDE = 'degredations.py, objects.py, detector.olpf_ft/pixel_ft (consumers of the same routines); float rounding'
 NDERIVED = 40
 MAX_PATHS = 8
